@@ -57,7 +57,8 @@ def props_of(rep, rec=None):
         if tag == "sendtx.trapReason":
             out |= {"C14", "C16"}
     elif tag == "fees.values" or tag == "post.fee":
-        out |= {"C15"}
+        # C02: "the fee percentiles are answered with respect to that same tip"
+        out |= {"C15", "C02"}
     elif tag == "config.value" or tag == "post.cfg":
         out |= {"C09", "C14"}
     elif tag in ("post.stableH", "post.hdr", "post.hdrOk"):
